@@ -121,26 +121,39 @@ def rule_vmprog(ctx, R, F):
     R.check(got.get(13, (None, ''))[1] == '((this->program.getEntropy(13) %% %d) * 64)' % (ex // 64 + 1), 'datasetOffset = (quadword 13 mod (EXTRA/64 + 1)) * 64', where, expected='(getEntropy(13) %% %d) * 64' % (ex // 64 + 1), found=got.get(13))
     # address registers: readReg_k = 2k + bit k of quadword 12
     t3 = S.table('4.5.3')
-    seq = []
-    aid = [k for k, v in locals_.items() if v == 12]
-    with astq.renaming({aid[0]: 'Q12'} if aid else {}):
-        for s in f['body']['s']:
-            top = strip_all(s)
-            if top['k'] == 'Assign' and 'readReg' in show(top['l']):
-                seq.append((show(top['l']).replace('this->config.', ''), showv(top['r'])))
-            if top['k'] == 'CAssign' and aid and ref_id(top['l']) == aid[0]:
-                seq.append(('shift', top['op'] + str(val(top['r']))))
-    exp_seq = []
+    from domains import KB as _KB, KBEval as _KBEval
+    base = []
     for i, r in enumerate(t3['rows']):
         m = re.match(r'`readReg(\d)` \((\d)\)', r['_cells'][0])
         r0 = int(re.sub(r'\D', '', r['_cells'][1]))
         r1 = int(re.sub(r'\D', '', r['_cells'][2]))
         if not m or r1 != r0 + 1 or int(m.group(2)) != i:
             raise AnalysisBroken('spec Table 4.5.3 row %r' % r['_cells'])
-        if i:
-            exp_seq.append(('shift', '>>=1'))
-        exp_seq.append(('readReg%d' % i, '(%d + (Q12 & 1))' % r0))
-    R.eq('address registers (Table 4.5.3)', where, exp_seq, seq)
+        base.append(r0)
+    bad = None
+    for low in range(16):
+        q12 = _KB(64, (~low) & 15, low)          # bits 0-3 fixed, everything above unknown: the choice may depend on nothing else
+
+        class _Ev(_KBEval):
+            def call(self, n):
+                if n.get('name') == 'getEntropy' and n.get('a') and val(n['a'][0]) is not None:
+                    return q12 if val(n['a'][0]) == 12 else _KB.top(64)
+                return _KBEval.call(self, n)
+        ev = _Ev(F, {})
+        try:
+            ev._exec(f['body'], [])
+        except AnalysisBroken:
+            pass
+        for k_, r0 in enumerate(base):
+            got_ = ev.env.get('this->config.readReg%d' % k_)
+            want_ = r0 + ((low >> k_) & 1)
+            if got_ is None or got_.value() != want_:
+                bad = (low, k_, got_.hexpat() if got_ is not None else None, want_)
+                break
+        if bad:
+            break
+    R.check(bad is None, 'address registers (Table 4.5.3)', where, expected='readReg_k = %s + bit k of entropy quadword 12, for all 16 values of its low four bits and independent of every other entropy bit' % base,
+            found='bits %s: readReg%d = %s, expected %d' % (bin(bad[0]), bad[1], bad[2], bad[3]) if bad else 'as specified')
     # A registers: Table 4.5.2  fraction bits 0-51, exponent bits 59-63
     from domains import KB, KBEval
 
@@ -355,11 +368,48 @@ def rule_blakegen(ctx, R, F):
     rec = F.record('randomx::Blake2Generator')
     R.eq('state size', '%s:%d' % (rec['file'], rec['line']), [('data', 64)], [(fl['name'], fl.get('arrlen')) for fl in rec['fields'] if fl['name'] == 'data'])
     ck = F.func('randomx::Blake2Generator::checkData')
-    with astq.renaming({ck['params'][0]['id']: 'N'}):
-        ifs = [x for x in walk(ck['body']) if x['k'] == 'If']
-        okc = len(ifs) == 1 and showv(ifs[0]['c']) == '((this->dataIndex + N) > 64)'
-        then = [showv(s) for s in ifs[0]['t']['s']] if ifs else []
-    R.check(okc and then == ['randomx_blake2b(this->data, 64, this->data, 64, nullptr, 0)', '(this->dataIndex = 0)'], 'refill rule', '%s:%d' % (ck['file'], ck['line']), expected='if (dataIndex + n > 64) { data = Hash512(data); dataIndex = 0 }', found=(showv(ifs[0]['c']) if ifs else None, then))
+    import slice as _slc
+
+    class _H:
+        def __init__(self, idx):
+            self.idx = idx
+            self.refills = []
+
+        def leaf(self, n, env, sl):
+            s_ = show(strip_all(n))
+            if s_.endswith('dataIndex'):
+                return self.idx
+            if s_.endswith('->data') or s_.endswith('.data'):
+                return 0x5000
+            return None
+
+        def store(self, n, env, sl):
+            if show(strip_all(n['l'])).endswith('dataIndex'):
+                v = sl.ev(n['r'], env)
+                if n['k'] == 'Assign' and v is not None:
+                    self.idx = v
+                else:
+                    self.idx = None
+
+        def call(self, n, args, env, sl):
+            if (n.get('name') or '').endswith('blake2b'):
+                self.refills.append(tuple(args[:4]))
+            return None
+    badr = None
+    for idx in range(0, 65):
+        for need in (1, 4, 8):
+            h_ = _H(idx)
+            sl_ = _slc.Slice(F, h_, {}, limit=2000, what='SPEC-BLAKEGEN')
+            try:
+                sl_.run(ck['body'], {ck['params'][0]['id']: need})
+            except _slc.NeedChoice as e_:
+                raise AnalysisBroken('SPEC-BLAKEGEN: checkData depends on %s' % e_.key)
+            want_refill = idx + need > 64
+            ok_ = (len(h_.refills) == (1 if want_refill else 0)) and h_.idx == (0 if want_refill else idx) and all(r_ == (0x5000, 64, 0x5000, 64) for r_ in h_.refills)
+            if not ok_ and badr is None:
+                badr = (idx, need, len(h_.refills), h_.idx, h_.refills[:1])
+    R.check(badr is None, 'refill rule', '%s:%d' % (ck['file'], ck['line']), expected='data = Hash512(data) and dataIndex = 0 exactly when dataIndex + n > 64 (every dataIndex 0..64, n in {1, 4, 8})',
+            found='dataIndex %d, n %d: %d refill(s), dataIndex afterwards %s %s' % badr if badr else 'as specified')
     gb = F.func('randomx::Blake2Generator::getByte')
     R.eq('getByte', '%s:%d' % (gb['file'], gb['line']), ['this.checkData(1)', 'return this->data[this->dataIndex++]'], [showv(s) for s in gb['body']['s']])
     gu = F.func('randomx::Blake2Generator::getUInt32')
